@@ -100,13 +100,14 @@ def reachable_from(prog, reg, roots):
 
 
 class ErrFlow:
-    def __init__(self, prog, main, registry=None, err_int=-1):
+    def __init__(self, prog, main, registry=None, err_int=-1, loop_bound=2):
         self.prog = prog
         self.reg = registry or Registry(prog)
         self.main = main
         self.reach = reachable_from(prog, self.reg, [main])
         self.memo = {}
         self.err_int = err_int
+        self.loop_bound = loop_bound
         self.checked_sites = []
 
     def site_propagates(self, caller, node, pointer=False):
@@ -121,7 +122,7 @@ class ErrFlow:
             return None
 
         ex = absint.Explorer(self.prog, inline=lambda n, d: False, on_unknown_call=unk,
-                             loop_bound=2, max_paths=20000)
+                             loop_bound=self.loop_bound, max_paths=60000)
         outs = ex.run(caller, [TOP] * len(caller.params), {})
         hit = 0
         bad = []
